@@ -126,3 +126,12 @@ for a in DEC_ARITH:
 for a in ('Min', 'Max', 'Avg', 'Med'):
     rule('decimal-ast', 'eval', a, PANIC_KINDS, ['C11'])        # an argument that fails makes the aggregate return Err
 rule('decimal-ast', '*', '*', ['decreases'], ['C02'])
+
+
+# ---- tokenizers (units <stack>-tok): no panic, progress (>= 1 character per token), Eof exactly at the end of input
+T = '*-tok'
+rule(T, '*', '*', PANIC_KINDS, ['C01'])
+rule(T, '*', '*', ['decreases'], ['C02'])
+rule(T, 'next', '*', ['post', 'invariant'], ['C02', 'C03'])
+rule(T, 'deserialize_superscript_number', '*', ['post', 'invariant'], ['C02'])
+rule(T, 'new', '*', ['post'], ['C03'])
